@@ -267,7 +267,7 @@ pub fn run(report: &mut Report, replay: Option<&Value>) {
             let _ = std::fs::remove_dir_all(&root);
         }
     });
-    let (n, n_probe) = if report.thorough() { (5000, 600) } else { (300, 60) };
+    let (n, n_probe) = if report.thorough() { (5000, 600) } else { (500, 100) };
     let mut stats = GenStats::default();
     // main campaign: failing files excluded by construction while the poisoning finding is open
     let poisoned_open = report.findings.is_open("C08", "cache-poisoned-after-failed-load");
